@@ -262,12 +262,16 @@ func judge(class string, key []byte, o *fw.Obs) {
 	mnode, merr := mp.Master(seed)
 	var node *slip10.ExtendedKey
 	var err error
-	if !o.Try("NewMasterKey", func() { node, err = slip10.NewMasterKey(seed, curve) }) {
+	seedBuf := append([]byte(nil), seed...)
+	if !o.Try("NewMasterKey", func() { node, err = slip10.NewMasterKey(seedBuf, curve) }) {
 		return
 	}
-	if !bytes.Equal(seed, seedCopy) {
+	if !bytes.Equal(seedBuf, seedCopy) {
 		o.Fail("mutation", "NewMasterKey modified the seed")
 		return
+	}
+	for i := range seedBuf { // the caller wipes its seed buffer: the key must not depend on it any more
+		seedBuf[i] = 0xee
 	}
 	what := fmt.Sprintf("%s master", curveName(cid))
 	if merr != nil {
@@ -320,8 +324,16 @@ func judge(class string, key []byte, o *fw.Obs) {
 		// DeriveKeyFromPath over the prefix must agree with the stepwise derivation
 		var viaPath *slip10.ExtendedKey
 		var perr error
-		if !o.Try("DeriveKeyFromPath", func() { viaPath, perr = slip10.DeriveKeyFromPath(seed, curve, path[:step+1]) }) {
+		sb2 := append([]byte(nil), seed...)
+		pb2 := append([]uint32(nil), path[:step+1]...)
+		if !o.Try("DeriveKeyFromPath", func() { viaPath, perr = slip10.DeriveKeyFromPath(sb2, curve, pb2) }) {
 			return
+		}
+		for i := range sb2 {
+			sb2[i] = 0x11
+		}
+		for i := range pb2 {
+			pb2[i] = 0xffffffff
 		}
 		if merr != nil {
 			if !cmpErr(o, what, child, err, merr, false, idx) || !cmpErr(o, what+" via DeriveKeyFromPath", viaPath, perr, merr, false, idx) {
